@@ -55,6 +55,9 @@ def run(ctx):
     for n in lens:
         datas.append(rbytes(rng, n))
     datas += [b"\x00" * 17, b"\xff" * 33, bytes(range(256))]
+    # inputs that an over-helpful reader might "clean up": byte order marks, line terminators, a hex prefix, control bytes
+    datas += [b"\xef\xbb\xbf", b"\xef\xbb\xbfabc", b"\xef\xbb", b"\xfe\xff\x00a", b"\xff\xfea\x00", b"\n", b"abc\n", b"abc\r\n", b"\r", b" abc ", b"0x", b"0xff",
+              b"\x1a", b"abc\x1adef", b"\x04", b"\x00abc\x00", b"-"]
 
     # ---------- encode ----------
     runs = [dict(args=["hex", "encode"], stdin=d) for d in datas]
